@@ -22,6 +22,8 @@ fn main() {
             serde_json::from_str(&std::fs::read_to_string(&args[3]).expect("replay file")).expect("json");
         match id {
             "C01" | "C02" | "C04" | "C05" | "C08" | "C16" => mc::checks::wscheck::replay(&v["case"]),
+            "C03" => mc::checks::c03::replay(&v["case"]),
+            "C15" => mc::checks::c15::replay(&v["case"]),
             "C06" => mc::checks::c06::replay(&v["case"]),
             "C07" => mc::checks::c07::replay(&v["case"]),
             "C09" => mc::checks::c09::replay(&v["case"]),
@@ -38,10 +40,12 @@ fn main() {
     match id {
         "C01" => mc::checks::c01::run(rep),
         "C02" => mc::checks::c02::run(rep),
+        "C03" => mc::checks::c03::run(rep),
         "C04" => mc::checks::c04::run(rep),
         "C05" => mc::checks::c05::run(rep),
         "C06" => mc::checks::c06::run(rep),
         "C07" => mc::checks::c07::run(rep),
+        "C15" => mc::checks::c15::run(rep),
         "C16" => mc::checks::c16::run(rep),
         "C20" => mc::checks::c20::run(rep),
         "C19" => mc::checks::c19::run(rep),
